@@ -81,7 +81,7 @@ def module_source(curve):
         outs = ", ".join("P.%s.encode().to_vec()" % c for c in d["coords"])
     A("    fn pt(a: &[Vec<u8>], i: usize) -> Point { %s }" % ctor)
     A("    pub fn call(func: &str, n: u64, a: &[Vec<u8>]) -> Vec<Vec<u8>> {")
-    A("        let mut P = pt(a, 0);")
+    A("        let mut P = if a.len() >= %d { pt(a, 0) } else { Point::BASE };" % k)
     A("        match func {")
     A("            \"set_add\" => { let Q = pt(a, %d); P.set_add(&Q); }" % k)
     A("            \"set_sub\" => { let Q = pt(a, %d); P.set_sub(&Q); }" % k)
@@ -114,10 +114,10 @@ def module_source(curve):
             else:
                 A("            \"%s\" => { let Q = %s; P.%s(&Q); }" % (fn, actor, fn))
     # scalar multiplication (C04/C10): scalar bytes follow the point coordinates
-    A("            \"mul\" => { let sc = Scalar::decode_reduce(&a[%d]); P.set_mul(&sc); }" % k)
-    A("            \"op_mul_scalar\" => { let sc = Scalar::decode_reduce(&a[%d]); P = P * sc; }" % k)
-    A("            \"mulgen\" => { let sc = Scalar::decode_reduce(&a[%d]); P.set_mulgen(&sc); }" % k)
-    A("            \"basemul\" => { P = Point::BASE; P.set_xdouble(n as u32); let kk = u64::from_le_bytes(<[u8; 8]>::try_from(&a[%d][..8]).unwrap()); P.set_mul_small(kk); }" % k)
+    A("            \"mul\" => { let sc = Scalar::decode_reduce(&a[a.len() - 1]); P.set_mul(&sc); }")
+    A("            \"op_mul_scalar\" => { let sc = Scalar::decode_reduce(&a[a.len() - 1]); P = P * sc; }")
+    A("            \"mulgen\" => { let sc = Scalar::decode_reduce(&a[a.len() - 1]); P.set_mulgen(&sc); }")
+    A("            \"basemul\" => { P = Point::BASE; P.set_xdouble(n as u32); let kk = u64::from_le_bytes(<[u8; 8]>::try_from(&a[a.len() - 1][..8]).unwrap()); P.set_mul_small(kk); }")
     A("            \"base\" => { P = Point::BASE; }")
     for tname, (lay, fs) in TABLES.get(curve, {}).items():
         if lay == "struct":
@@ -168,6 +168,27 @@ fn main() {
 '''
 
 
+X_ARMS = r'''
+                "x25519" => {
+                    use core::convert::TryFrom;
+                    match func.as_str() {
+                        "x" => vec![crrl::x25519::x25519(<&[u8; 32]>::try_from(&a[0][..]).unwrap(),
+                                                         <&[u8; 32]>::try_from(&a[1][..]).unwrap()).to_vec()],
+                        "base" => vec![crrl::x25519::x25519_base(<&[u8; 32]>::try_from(&a[0][..]).unwrap()).to_vec()],
+                        _ => vec![],
+                    }
+                },
+                "x448" => {
+                    use core::convert::TryFrom;
+                    match func.as_str() {
+                        "x" => vec![crrl::x448::x448(<&[u8; 56]>::try_from(&a[0][..]).unwrap(),
+                                                     <&[u8; 56]>::try_from(&a[1][..]).unwrap()).to_vec()],
+                        "base" => vec![crrl::x448::x448_base(<&[u8; 56]>::try_from(&a[0][..]).unwrap()).to_vec()],
+                        _ => vec![],
+                    }
+                },'''
+
+
 class Replay:
     def __init__(self, curves=None):
         self.curves = list(curves or CURVES)
@@ -186,6 +207,7 @@ class Replay:
                 d = CURVES[cv]
                 sc.append(d["file"], module_source(cv))
                 arms.append('                "%s" => crrl::%s::verif_replay::call(&func, n, &a),' % (cv, cv))
+            arms.append(X_ARMS)
             sc.write("src/bin/verif_replay.rs", BIN % "\n".join(arms))
             rc, out, secs = sc.run(["cargo", "build", "--offline", "--bin", "verif_replay",
                                     "--target-dir", sc.target], timeout=600)
